@@ -5,7 +5,7 @@ From Coq Require Import List ZArith Arith Lia Bool Permutation.
 From PV Require Import Base.Index Base.Perm Np.NpZ Np.NpZ2 Np.NpZ3 Np.NpZ3b Np.NpZ3c Np.NpZ3d Np.NpZ3e Np.NpZ4 Np.NpZ4b
   Proofs.NpZProofs Gen.GenUtils3b Gen.GenSptensor4 Gen.GenKtensor4 Model.Sparse Model.Repr Model.C07Ops Model.C07Req
   Model.C08Kruskal Model.W4Ktensor Model.W4Sptensor Proofs.W4Loops Proofs.W4Ktensor Proofs.W4KtensorLaws Proofs.W4Sptensor
-  Model.C07Gen4 Proofs.C07Req.
+  Model.C07W5 Model.C07Gen4 Proofs.C07Req Proofs.C07W5.
 Import ListNotations.
 Local Open Scope Z_scope.
 
@@ -33,10 +33,18 @@ Proof.
 Qed.
 
 Theorem kt_permute_req_c07 (self k' : ktz) (x : pyshp) : ktensor_permute_req self x = Ok k' ->
+  permute_k_req5 (to_K self) x = Some (to_K k').
+Proof.
+  unfold ktensor_permute_req, permute_k_req5. destruct (order_of_k x) as [pz|]; [|discriminate]. intros E.
+  destruct (gen_kt_permute_c07 self k' pz E) as (_ & Hnn & Hk). unfold with_order_z. now rewrite (nats_of_nonneg pz Hnn).
+Qed.
+
+(* on an order that is not boolean this is the fourth-wave request model *)
+Corollary kt_permute_req_c07_int (self k' : ktz) (x : pyshp) : bool_order_of x = None -> ktensor_permute_req self x = Ok k' ->
   permute_k_req (to_K self) x = Some (to_K k').
 Proof.
-  unfold ktensor_permute_req, permute_k_req, with_order. destruct (order_of x) as [pz|]; [|discriminate]. intros E.
-  destruct (gen_kt_permute_c07 self k' pz E) as (_ & Hnn & Hk). unfold with_order_z. now rewrite (nats_of_nonneg pz Hnn).
+  intros Hb E. apply kt_permute_req_c07 in E. unfold permute_k_req5, order_of_k in E. rewrite Hb in E.
+  unfold permute_k_req, with_order. destruct (order_of x); [exact E|discriminate].
 Qed.
 
 (* sparse, with stored entries (subscripts and sizes non-negative, which the constructor guarantees) *)
@@ -46,11 +54,23 @@ Theorem sp_permute_req_c07 (self t : sptz) (x : pyshp) :
   sptensor_permute_req self x = Ok t ->
   permute_sp_req (to_Sp self) x = Some (to_Sp t).
 Proof.
-  intros Hs Hd Hz. unfold sptensor_permute_req, permute_sp_req, with_order. destruct (order_of x) as [pz|]; [|discriminate].
+  intros Hs Hd Hz. unfold sptensor_permute_req, permute_sp_req, with_order.
+  destruct (bool_order_of x) as [bz|]; [rewrite gen_sp_permute_bool_rejected; discriminate|].
+  destruct (order_of x) as [pz|]; [|discriminate].
   intros E. destruct (gen_sp_permute_model self t pz Hs Hd Hz E) as [_ Hm].
   assert (Hnn : forall y, In y pz -> 0 <= y).
   { destruct (sorted_or_not pz (zlen (spt_shape self))) as [Es|Es].
     - intros y Hy. apply (sorted_is_range_in pz _ Es y Hy).
     - rewrite (gen_sp_permute_rejects self pz Es) in E. discriminate. }
   unfold with_order_z. now rewrite (nats_of_nonneg pz Hnn).
+Qed.
+
+(* N-C07-5 (repaired) over the generated text: a boolean order — whatever its truth values, mixed ones included, which sort to
+   0, 1 — is refused by the generated sptensor.permute, as the request-level model says *)
+Theorem sp_permute_req_bool_c07 (self : sptz) (x : pyshp) (bz : vec) : bool_order_of x = Some bz ->
+  sptensor_permute_req self x = Err /\ forall (V : Type) (S : Sparse.sparse V), permute_sp_req S x = None.
+Proof.
+  intros H. split.
+  - unfold sptensor_permute_req. rewrite H. apply gen_sp_permute_bool_rejected.
+  - intros V S. unfold permute_sp_req, with_order. now rewrite (bool_order_not_int x bz H).
 Qed.
